@@ -78,13 +78,29 @@ func runC19(c c19Case, rec *stat.Rec) *stat.Failure {
 	if !c.Reader {
 		return nil
 	}
-	r := lz4.NewReader(bytes.NewReader(b))
+	// once on a fresh Reader, once on a long-lived Reader that is Reset onto each header in turn (what it has
+	// parsed before must not show)
+	if f := c19Reader(c, b, want, hasSize, size, lz4.NewReader(bytes.NewReader(b)), "fresh"); f != nil {
+		return f
+	}
+	ru := c19Reused.Get().(*lz4.Reader)
+	defer c19Reused.Put(ru)
+	ru.Reset(bytes.NewReader(b))
+	return c19Reader(c, b, want, hasSize, size, ru, "reused")
+}
+
+var c19Reused = sync.Pool{New: func() interface{} { return lz4.NewReader(nil) }}
+
+func c19Reader(c c19Case, b []byte, want string, hasSize bool, size uint64, r *lz4.Reader, kind string) *stat.Failure {
+	if got := r.Size(); got != 0 {
+		return stat.Failf("C19/size-reported-before-the-header-was-read/"+kind, "desc %04x: Size()=%d on a Reader that has not read anything yet", c.Desc, got)
+	}
 	var buf [16]byte
 	n, rerr := r.Read(buf[:])
 	if want == "accept" {
 		// the body is an empty frame; with the content-checksum flag clear the 4 extra bytes are simply not consumed
 		if n != 0 || rerr != io.EOF {
-			return stat.Failf("C19/reader-rejects-valid-header", "desc %04x sizefield=%v hc=%02x: Read=(%d,%v), want (0, EOF)", c.Desc, c.SizeField, c.HC, n, rerr)
+			return stat.Failf("C19/reader-rejects-valid-header/"+kind, "desc %04x sizefield=%v hc=%02x: Read=(%d,%v), want (0, EOF)", c.Desc, c.SizeField, c.HC, n, rerr)
 		}
 		got := r.Size()
 		wantSize := uint64(0)
@@ -92,7 +108,7 @@ func runC19(c c19Case, rec *stat.Rec) *stat.Failure {
 			wantSize = size
 		}
 		if uint64(got) != wantSize {
-			return stat.Failf("C19/size-not-faithful", "desc %04x declared size %d (flag %v): Size()=%d", c.Desc, size, hasSize, got)
+			return stat.Failf("C19/size-not-faithful/"+kind, "desc %04x declared size %d (flag %v): Size()=%d on a %s Reader", c.Desc, size, hasSize, got, kind)
 		}
 		return nil
 	}
